@@ -594,13 +594,18 @@ where
         let la = SrgbLumaa::<u8>::new(c[0], c[1]);
         let x = ((c[0] as u16) << 8) | c[1] as u16;
         let p16 = Packed::<O, u16>::pack(la).color;
-        let packs: Vec<[u8; 2]> = vec![Packed::<O, [u8; 2]>::pack(la).color, [(p16 >> 8) as u8, p16 as u8]];
+        let be2 = |v: u16| -> [u8; 2] { [(v >> 8) as u8, v as u8] };
+        let packs: Vec<[u8; 2]> = vec![Packed::<O, [u8; 2]>::pack(la).color, be2(p16), be2(la.into_u16::<O>())];
+        // the opaque colour packs with alpha 255 and unpacks by dropping the alpha byte
+        let packs_l: Vec<[u8; 2]> = vec![be2(palette::SrgbLuma::<u8>::new(c[0]).into_u16::<O>())];
         let u1: SrgbLumaa<u8> = Packed::<O, [u8; 2]> { color: c, channel_order: Default::default() }.unpack();
         let u2: SrgbLumaa<u8> = Packed::<O, u16>::from(x).unpack();
-        let unpacks: Vec<[u8; 2]> = vec![[u1.color.luma, u1.alpha], [u2.color.luma, u2.alpha]];
-        json!({"ev": "lpack", "order": name, "c": c, "packs": packs, "unpacks": unpacks, "panic": 0})
+        let u3 = SrgbLumaa::<u8>::from_u16::<O>(x);
+        let unpacks: Vec<[u8; 2]> = vec![[u1.color.luma, u1.alpha], [u2.color.luma, u2.alpha], [u3.color.luma, u3.alpha]];
+        let unpacks_l: Vec<[u8; 1]> = vec![[palette::SrgbLuma::<u8>::from_u16::<O>(x).luma]];
+        json!({"ev": "lpack", "order": name, "c": c, "packs": packs, "unpacks": unpacks, "packs_l": packs_l, "unpacks_l": unpacks_l, "panic": 0})
     });
-    r.unwrap_or_else(|_| json!({"ev": "lpack", "order": name, "c": c, "packs": [], "unpacks": [], "panic": 1}))
+    r.unwrap_or_else(|_| json!({"ev": "lpack", "order": name, "c": c, "packs": [], "unpacks": [], "packs_l": [], "unpacks_l": [], "panic": 1}))
 }
 
 fn lpack_by_name(name: &str, c: [u8; 2]) -> Value {
